@@ -218,7 +218,12 @@ impl Scenario for Udp {
                             ops.push(UOp::Rec { flow: f, kind: RecKind::Valid, payload: rng.size(1, 1400) as usize, app: rng.usize_below(APPS.len()) });
                         }
                     }
-                    5 | 6 => ops.push(UOp::Reply { flow: f, len: rng.size(1, 1400) as usize }),
+                    5 | 6 => {
+                        // one reply in ten is an empty datagram (legal UDP; no extra draw, so
+                        // that the other dimensions of earlier plans stay what they were)
+                        let len = rng.size(1, 1400) as usize;
+                        ops.push(UOp::Reply { flow: f, len: if len % 10 == 0 { 0 } else { len } });
+                    }
                     7 => ops.push(UOp::Unsolicited { flow: f, len: rng.size(1, 200) as usize }),
                     8 => ops.push(UOp::SocketError { flow: f, code: *rng.pick(&[libc::ECONNREFUSED, libc::EHOSTUNREACH, libc::ENETDOWN]) }),
                     9 | 10 => {
